@@ -647,83 +647,6 @@ func main() {
 	r.States += st.Execs
 	r.Transitions += st.Points
 	r.Traces += st.Execs
-	// the constructors and converters around Layers: a tile built from named feature collections is the same tile as
-	// the one built layer by layer, and converting back yields the same collections
-	r.Explore("layer-conversions", "0..3 named collections of 0..2 features: NewLayers = one NewLayer per name (version 1, default extent, the collection's features), Layers.ToFeatureCollections is its inverse, and the tile marshalled from NewLayers decodes to the same features under the same names", mc.Opts{MaxDev: -1}, func(c *mc.Ctx) {
-		names := []string{"a", "b", ""}[:c.Choose(4)]
-		src := map[string]*geojson.FeatureCollection{}
-		for i, n := range names {
-			fc := geojson.NewFeatureCollection()
-			for k, nf := 0, c.Choose(3); k < nf; k++ {
-				f := geojson.NewFeature(orb.Point{float64(10*i + k), float64(k)})
-				f.ID = float64(i*3 + k + 1)
-				f.Properties["n"] = n
-				fc.Append(f)
-			}
-			src[n] = fc
-		}
-		ls := mvt.NewLayers(src)
-		if len(ls) != len(src) {
-			c.Failf("layer-conversions", "NewLayers of %d collections has %d layers", len(src), len(ls))
-			return
-		}
-		for _, l := range ls {
-			fc, ok := src[l.Name]
-			one := mvt.NewLayer(l.Name, fc)
-			if !ok || l.Version != 1 || l.Extent != mvt.DefaultExtent || len(l.Features) != len(fc.Features) || one.Version != l.Version || one.Extent != l.Extent || one.Name != l.Name || len(one.Features) != len(l.Features) {
-				c.Failf("layer-conversions", "layer %q: version %d extent %d features %d, NewLayer gives version %d extent %d features %d, the collection has %d", l.Name, l.Version, l.Extent, len(l.Features), one.Version, one.Extent, len(one.Features), len(fc.Features))
-				return
-			}
-			for i := range l.Features {
-				if l.Features[i] != fc.Features[i] || one.Features[i] != fc.Features[i] {
-					c.Failf("layer-conversions", "layer %q feature %d is not the collection's feature", l.Name, i)
-				}
-			}
-		}
-		back := ls.ToFeatureCollections()
-		if len(back) != len(src) {
-			c.Failf("layer-conversions", "ToFeatureCollections gives %d collections for %d layers", len(back), len(src))
-			return
-		}
-		for n, fc := range src {
-			b := back[n]
-			if b == nil || len(b.Features) != len(fc.Features) {
-				c.Failf("layer-conversions", "collection %q lost in ToFeatureCollections", n)
-				return
-			}
-			for i := range fc.Features {
-				if b.Features[i] != fc.Features[i] {
-					c.Failf("layer-conversions", "collection %q feature %d changed identity", n, i)
-				}
-			}
-		}
-		data, err := mvt.Marshal(ls)
-		if err != nil {
-			c.Failf("marshal-error", "%v", err)
-			return
-		}
-		dec, err := mvt.Unmarshal(data)
-		if err != nil || len(dec) != len(src) {
-			c.Failf("layer-conversions", "the tile decodes to %d layers (%v), want %d", len(dec), err, len(src))
-			return
-		}
-		for n, fc := range dec.ToFeatureCollections() {
-			want := src[n]
-			if want == nil || len(fc.Features) != len(want.Features) {
-				c.Failf("layer-conversions", "decoded collection %q has %d features", n, len(fc.Features))
-				continue
-			}
-			for i, f := range fc.Features {
-				w := want.Features[i]
-				if !orb.Equal(f.Geometry, w.Geometry) || f.ID != w.ID || f.Properties["n"] != w.Properties["n"] {
-					c.Failf("layer-conversions", "decoded collection %q feature %d = %v id %v, want %v id %v", n, i, f.Geometry, f.ID, w.Geometry, w.ID)
-				}
-			}
-		}
-		if len(src) > 1 {
-			c.NonTrivial()
-		}
-	})
 	r.Count("map_iteration_steps", permSteps)
 	r.Sample(map[string]interface{}{"layer": "name=layer version=2 extent=4096", "feature": "MultiPolygon{{sq,hole},{tri}} id=int8(7) properties={a:int(1), b:int64(1)}", "expected": "MultiPolygon regrouped by winding, id 7.0, a=1.0, b=1.0 (two value-table entries)"})
 	r.Finish()
